@@ -6,6 +6,8 @@ package main
 
 import (
 	"fmt"
+	"os"
+	"path/filepath"
 	"regexp"
 	"strings"
 )
@@ -305,6 +307,200 @@ func c15Run(c *Ctx) {
 	}
 	_ = lineNS
 	Flags{}.Apply()
+	c15Prefixes(c)
+	c15Sequences(c)
+}
+
+func c15Line(ns, field, plan string, i int) string {
+	dot := strings.IndexByte(ns, '.')
+	return LO("t", LO("$date", LS("2024-05-01T10:00:00.123+00:00")), "s", LS("I"), "c", LS("COMMAND"), "id", LN("51803"), "ctx", LS(fmt.Sprintf("conn%d", i)), "msg", LS("Slow query"),
+		"attr", LO("type", LS("command"), "ns", LS(ns), "command", LO("find", LS(ns[dot+1:]), "filter", LO(field, LS("v"), "other", LO("$gt", LN("3"))), "sort", LO(field, LN("-1")), "$db", LS(ns[:dot])),
+			"planSummary", LS(plan), "durationMillis", LN("12"))).JSON()
+}
+
+// c15Prefixes: --redactFieldNames may be given several times.  Every ordered list of 1..3 prefixes out of a pool whose
+// members are prefixes of each other, against every namespace of a pool: the line is renamed exactly when SOME
+// configured prefix is a prefix of its namespace - whatever the order, number and mutual relation of the prefixes.
+func c15Prefixes(c *Ctx) {
+	pool := []string{"shop", "shop.orders", "shop.users", "sho", "other", "shop.orders.archive", "t", "shop.o"}
+	nss := []string{"shop.orders", "shop.users", "shop.zzz", "shopping.cart", "other.y", "zz.top", "shop.orders.archive", "sho.p", "t.t"}
+	var lists [][]string
+	for a := range pool {
+		lists = append(lists, []string{pool[a]})
+		for b := range pool {
+			if b == a {
+				continue
+			}
+			lists = append(lists, []string{pool[a], pool[b]})
+			for d := range pool {
+				if d == a || d == b {
+					continue
+				}
+				lists = append(lists, []string{pool[a], pool[b], pool[d]})
+			}
+		}
+	}
+	lists = append(lists, append([]string{}, pool...), []string{"shop", "shop"}, []string{"zz", "yy", "xx", "ww", "shop.users"})
+	var no int64
+	check := func(list []string, ns, on, off, via string) {
+		applies := false
+		for _, p := range list {
+			if strings.HasPrefix(ns, p) {
+				applies = true
+			}
+		}
+		c.Distinct(fmt.Sprintf("prefixes|%v|%s|%s", list, ns, via))
+		rep := map[string]any{"kind": "prefix-list", "prefixes": list, "namespace": ns, "via": via}
+		if !applies {
+			if on != off {
+				c.Violate("fieldnames:prefix-list:foreign-namespace-changed:"+via, fmt.Sprintf("--redactFieldNames %v, line of namespace %s (%s): no configured prefix is a prefix of it, but the line differs from the run without the flag", list, ns, via), int64(len(list)), rep, nil)
+			}
+			return
+		}
+		j, err := ParseJSON([]byte(on))
+		if err != nil {
+			return
+		}
+		f := jGet(j, "attr", "command", "filter")
+		so := jGet(j, "attr", "command", "sort")
+		ps := jGet(j, "attr", "planSummary")
+		want := HashName("acctNo")
+		if f == nil || so == nil || ps == nil || len(f.Keys) != 2 || f.Keys[0] != want || f.Keys[1] != HashName("other") || so.Keys[0] != want || ps.Str != "IXSCAN { "+want+": 1 }" {
+			c.Violate("fieldnames:prefix-list:not-renamed:"+via, fmt.Sprintf("--redactFieldNames %v, line of namespace %s (%s): a configured prefix is a prefix of the namespace, but the field names are not (all) replaced by their pseudonyms: %s", list, ns, via, trunc(on, 400)), int64(len(list)), rep, nil)
+		}
+	}
+	for _, list := range lists {
+		for ni, ns := range nss {
+			no++
+			if !c.Mine(no) {
+				continue
+			}
+			line := c15Line(ns, "acctNo", "IXSCAN { acctNo: 1 }", ni)
+			Flags{}.Apply()
+			off, _, _ := redactLine(line)
+			Flags{F: list}.Apply()
+			on, _, _ := redactLine(line)
+			c.Eval(2)
+			check(list, ns, on, off, "in-process")
+		}
+	}
+	c.Count("prefix_lists", int64(len(lists)))
+	// through the CLI flag wiring: one run per list over all namespaces (every 3rd list in the quick tier)
+	dir := freshDir(c.Scratch, "c15pref")
+	var in strings.Builder
+	for ni, ns := range nss {
+		in.WriteString(c15Line(ns, "acctNo", "IXSCAN { acctNo: 1 }", ni) + "\n")
+	}
+	os.WriteFile(filepath.Join(dir, "in.log"), []byte(in.String()), 0o644)
+	offRes, err := runCLI(CLIRun{Bin: c.CLI, Args: []string{"redact", "in.log"}, Dir: dir})
+	if err != nil || offRes.Exit != 0 {
+		c.HarnessError("C15 prefix lists: CLI run without the flag failed: %v", err)
+		return
+	}
+	offLines := strings.Split(strings.TrimSuffix(string(offRes.Stdout), "\n"), "\n")
+	Flags{}.Apply()
+	for li, list := range lists {
+		if !c.Mine(int64(li)) || (!c.Thorough() && li%3 != 0 && len(list) < 4) {
+			continue
+		}
+		res, err := runCLI(CLIRun{Bin: c.CLI, Args: append([]string{"redact", "in.log"}, Flags{F: list}.CLIArgs("")...), Dir: dir})
+		if err != nil {
+			c.HarnessError("C15 prefix lists: %v", err)
+			return
+		}
+		c.Eval(1)
+		c.Count("cli_runs", 1)
+		onLines := strings.Split(strings.TrimSuffix(string(res.Stdout), "\n"), "\n")
+		if res.Exit != 0 || len(onLines) != len(nss) {
+			c.Violate("fieldnames:prefix-list:cli-run", fmt.Sprintf("--redactFieldNames %v: exit %d, %d output lines for %d input lines: %s", list, res.Exit, len(onLines), len(nss), trunc(string(res.Stderr), 200)), int64(len(list)), map[string]any{"kind": "prefix-list", "prefixes": list}, nil)
+			continue
+		}
+		for ni, ns := range nss {
+			check(list, ns, onLines[ni], offLines[ni], "cli")
+		}
+	}
+}
+
+// c15Sequences: lines of chosen and of other namespaces in one run.  Every sequence of up to 3 lines over an
+// alphabet in which a chosen and a foreign namespace carry byte-identical plan summaries, filters and field names
+// is run through the CLI; every output line must equal what its input line yields in a run of its own.
+func c15Sequences(c *Ctx) {
+	if c.NShards > 1 && c.Shard != 2%c.NShards && c.Shard != 3%c.NShards {
+		return
+	}
+	alpha := []string{
+		c15Line("shop.orders", "acctNo", "IXSCAN { acctNo: 1 }", 1),
+		c15Line("crm.orders", "acctNo", "IXSCAN { acctNo: 1 }", 1),
+		c15Line("shop.users", "email", "IXSCAN { acctNo: 1, email: -1 }", 2),
+		c15Line("crm.users", "email", "IXSCAN { acctNo: 1, email: -1 }", 2),
+		c15Line("shop.orders", "email", "COLLSCAN", 3),
+		c15Line("crm.orders", "other", "IXSCAN { other: 1 }", 4),
+	}
+	dir := freshDir(c.Scratch, "c15seq")
+	for fi, fl := range []Flags{{F: []string{"shop"}}, {F: []string{"shop.orders", "crm.users"}, N: true}} {
+		if c.NShards > 1 && c.Shard != (2+fi)%c.NShards {
+			continue
+		}
+		run := func(lines []string) ([]string, bool) {
+			os.WriteFile(filepath.Join(dir, "in.log"), []byte(strings.Join(lines, "\n")+"\n"), 0o644)
+			res, err := runCLI(CLIRun{Bin: c.CLI, Args: append([]string{"redact", "in.log"}, fl.CLIArgs("")...), Dir: dir})
+			c.Eval(1)
+			c.Count("cli_runs", 1)
+			if err != nil || res.Exit != 0 {
+				return nil, false
+			}
+			return strings.Split(strings.TrimSuffix(string(res.Stdout), "\n"), "\n"), true
+		}
+		solo := make([]string, len(alpha))
+		for i, l := range alpha {
+			o, ok := run([]string{l})
+			if !ok || len(o) != 1 {
+				c.HarnessError("C15 sequences: one-line run failed")
+				return
+			}
+			solo[i] = o[0]
+		}
+		depth := 3
+		var seq []int
+		var rec func()
+		rec = func() {
+			if len(seq) > 1 {
+				var ls []string
+				for _, i := range seq {
+					ls = append(ls, alpha[i])
+				}
+				out, ok := run(ls)
+				c.Distinct(fmt.Sprintf("seq|%d|%v", fi, seq))
+				bad := !ok || len(out) != len(seq)
+				at := -1
+				if !bad {
+					for k, i := range seq {
+						if out[k] != solo[i] {
+							bad, at = true, k
+							break
+						}
+					}
+				}
+				if bad {
+					what := "the run fails or emits another number of lines"
+					if at >= 0 {
+						what = fmt.Sprintf("line %d comes out as %s, on its own the same line gives %s", at+1, trunc(out[at], 300), trunc(solo[seq[at]], 300))
+					}
+					c.Violate("fieldnames:sequence:line-depends-on-earlier-lines", fmt.Sprintf("flags [%s], sequence %v of the line alphabet (chosen / foreign namespaces with identical plan summaries and field names): %s", fl, seq, what), int64(len(seq)),
+						map[string]any{"kind": "c15-sequence", "sequence": seq, "flags": fl.String(), "lines": ls}, nil)
+				}
+			}
+			if len(seq) == depth {
+				return
+			}
+			for i := range alpha {
+				seq = append(seq, i)
+				rec()
+				seq = seq[:len(seq)-1]
+			}
+		}
+		rec()
+	}
 }
 
 func init() {
